@@ -84,6 +84,18 @@ func genCfgFor(r *rand.Rand, i int, o *campOpts) *cons.GenCfg {
 		cfg.MinParents, cfg.MaxParents, cfg.PartProb = 1, 3, 0
 		cfg.EventsPer = minI(o.maxEvents, 40*n)
 	}
+	if i%8 == 6 && n >= 4 {
+		// polarised regime: long leaky partitions into two groups - frames keep advancing on bare quorums (own group plus a
+		// few cross links) while the two groups see different first-round roots, so later roots count split votes over
+		// partial observations
+		cfg.PartProb, cfg.Leak = 0.08, 0.10+r.Float64()*0.2
+		cfg.MinParents, cfg.MaxParents = 1, 2+r.Intn(2)
+		for _, p := range plans {
+			for k := range p.Lag {
+				p.Lag[k] = 0
+			}
+		}
+	}
 	return cfg
 }
 
